@@ -30,3 +30,25 @@ package edge
 //@   trusted
 //@   modifies nothing
 //@   ensures result != nil
+
+// Message constructors: assumed (trusted) to allocate and not touch existing modelled memory.
+//@ func NewBatchPointMessage
+//@   trusted
+//@   modifies nothing
+//@   ensures result != nil
+//@ func NewPointMessage
+//@   trusted
+//@   modifies nothing
+//@   ensures result != nil
+//@ func NewBeginBatchMessage
+//@   trusted
+//@   modifies nothing
+//@   ensures result != nil
+//@ func NewEndBatchMessage
+//@   trusted
+//@   modifies nothing
+//@   ensures result != nil
+//@ func NewBufferedBatchMessage
+//@   trusted
+//@   modifies nothing
+//@   ensures result != nil
